@@ -234,9 +234,9 @@ Section KeyReduction.
   Variable keys : list skey.                 (* the enabled keys of the decrypting keyset, in order *)
   Hypothesis Hvs : forall ki, In ki keys -> key_valid ki = true.
 
-  (* EVENT 3: a key of the keyset other than k accepts the first segment its
-     reader forms from the stream (under the session key IT derives); nothing was
-     ever encrypted under the other keys of the keyset *)
+  (* internal: a key record other than k accepts the first segment its reader
+     forms.  NOT a forgery event by itself (a record with the key material of k
+     and other parameters shares its session keys): see decoy_forgery below *)
   Definition decoy_accepts (c' : bytes) (F : option nat) (aad' : bytes) : Prop :=
     exists ki, In ki keys /\ ki <> k /\ first_accept ki aad' (mkSrc c' F).
 
@@ -304,8 +304,8 @@ Section KeyReduction.
       exact IH'.
   Qed.
 
-  (* THE REDUCTION, keyset-level reader *)
-  Theorem keyset_manipulation_reduction :
+  (* keyset-level reader, intermediate form (third disjunct not yet a forgery event) *)
+  Lemma keyset_manipulation_reduction0 :
     own_segments_decrypt ->
     forall (c' : bytes) (F : option nat) (aad' : bytes) (sizes : list nat),
       kgood c' aad' sizes (keyset_read keys aad' (mkSrc c' F) sizes) \/
@@ -345,10 +345,67 @@ Section KeyReduction.
       kgood c' aad' sizes (keyset_read keys aad' (mkSrc c' F) sizes).
   Proof.
     intros Hcorr c' F aad' sizes Hnf Hnc Hnd.
-    destruct (keyset_manipulation_reduction Hcorr c' F aad' sizes)
+    destruct (keyset_manipulation_reduction0 Hcorr c' F aad' sizes)
       as [G|[(N & c & s & Hin & Hd & Hnw)|[Hc|(ki & Hin & Hne & Ha)]]]; [exact G| |contradiction|].
     - exfalso. apply Hnw. apply (Hnf N c Hin). congruence.
     - exfalso. destruct (Hnd ki Hin); contradiction.
+  Qed.
+
+  (* KEYSET HYGIENE: every key of the decrypting keyset is the key k itself or has
+     other key material.  (A record with the key material of k but other
+     parameters derives the writer's session keys: what it accepts are the
+     writer's own segments - no forgery - and its reader cuts the stream at other
+     boundaries, which a theorem about the stream written by k does not cover.) *)
+  Definition other_material : Prop := forall ki, In ki keys -> ki = k \/ k_main ki <> k_main k.
+
+  (* EVENT 3, DECOY FORGERY: a key ki with other key material accepts, under the
+     session key sk_i IT derives from the salt field of c' and aad', the first
+     (nonce, segment) pair its reader forms - and (sk_i, N, c) is not in the
+     writer's log *)
+  Definition decoy_forgery (c' : bytes) (F : option nat) (aad' : bytes) : Prop :=
+    exists ki k1 k2 pre r0 s3 N c s,
+      In ki keys /\ k_main ki <> k_main k /\
+      new_dec_reader hkdf src read_full ki aad' (mkSrc c' F) = (Some (k1, k2, pre, r0), s3) /\
+      (k1, k2) = derive hkdf ki (firstn (k_dk ki) (skipn 1 c')) aad' /\
+      read_query read_full (k_rparams ki pre) r0 = Some (N, c) /\
+      SDEC ki (k1, k2) N c = Some s /\ ~ written (k1, k2) N c.
+
+  (* EVENT 4, CROSS-KEY COLLISION: a key with other key material derives the
+     writer's session keys *)
+  Definition cross_key_collision (c' aad' : bytes) : Prop :=
+    exists ki, In ki keys /\ k_main ki <> k_main k /\
+               derive hkdf ki (firstn (k_dk ki) (skipn 1 c')) aad' = sk.
+
+  (* THE REDUCTION, keyset-level reader *)
+  Theorem keyset_manipulation_reduction :
+    own_segments_decrypt -> other_material ->
+    forall (c' : bytes) (F : option nat) (aad' : bytes) (sizes : list nat),
+      kgood c' aad' sizes (keyset_read keys aad' (mkSrc c' F) sizes) \/
+      seg_forgery c' F aad' sizes \/ hkdf_collision c' aad' \/
+      decoy_forgery c' F aad' \/ cross_key_collision c' aad'.
+  Proof.
+    intros Hcorr Hmat c' F aad' sizes.
+    destruct (keyset_manipulation_reduction0 Hcorr c' F aad' sizes) as [G|[E|[E|(ki & Hin & Hne & Ha)]]];
+      [left; exact G|right; left; exact E|right; right; left; exact E|].
+    right. right. right.
+    destruct (Hmat ki Hin) as [E|Hmk]; [contradiction|].
+    unfold first_accept in Ha.
+    destruct (new_dec_reader hkdf src read_full ki aad' (mkSrc c' F)) as (o, s3) eqn:End.
+    destruct o as [[[[k1 k2] pre] r0]|]; [|destruct Ha].
+    destruct (read_query read_full (k_rparams ki pre) r0) as [[N c]|] eqn:Eq; [|destruct Ha].
+    destruct (SDEC ki (k1, k2) N c) as [s|] eqn:Ed; [|exfalso; apply Ha; reflexivity].
+    assert (Ek : (k1, k2) = derive hkdf ki (firstn (k_dk ki) (skipn 1 c')) aad').
+    { pose proof (new_dec_reader_some hkdf _ _ _ _ _ _ _ _ End) as (Hlim & Hfb).
+      pose proof End as End'.
+      rewrite (new_dec_reader_ok hkdf ki aad' _ Hlim Hfb) in End'. cbn zeta in End'. cbn [srem] in End'.
+      remember (firstn (k_dk ki) (skipn 1 c')) as salt0.
+      remember (firstn nonce_prefix_size (skipn (1 + k_dk ki) c')) as pre0.
+      remember (src_adv (mkSrc c' F) (hdr_len ki)) as s30.
+      inversion End'. symmetry. apply surjective_pairing. }
+    destruct (sk_eq_dec (k1, k2) sk) as [Esk|Esk].
+    - right. exists ki. split; [exact Hin|]. split; [exact Hmk|]. rewrite <- Ek. exact Esk.
+    - left. exists ki, k1, k2, pre, r0, s3, N, c, s. repeat split; auto.
+      intros (E & _). contradiction.
   Qed.
 
   (* ---------------------------------------------------------------- *)
@@ -490,20 +547,32 @@ Section CtrHmacForgery.
                 (fun i => bytes_eq_dec _ _) (length ss)) as [H|H]; [left; auto|right; tauto].
   Qed.
 
+  (* what NewAESCTRHMAC enforces (key_valid): 10 <= tag size <= digest size of the tag hash *)
+  Hypothesis Hvk : key_valid k = true.
+
+  Lemma ctr_tag_bounds : 10 <= tag /\ tag <= digest_size th.
+  Proof.
+    unfold key_valid in Hvk. apply andb_true_iff in Hvk. destruct Hvk as (_ & H).
+    apply andb_true_iff in H. destruct H as (A & B). apply Nat.leb_le in A, B. auto.
+  Qed.
+
   (* a segment that decrypts under (sk', N) without having been written carries an
-     HMAC forgery - unless sk' shares the HMAC half with the writer's session key
-     but not the AES half (a partial HKDF collision) *)
+     HMAC forgery (on a tag of the full tag size, at least 10 bytes) - unless sk'
+     shares the HMAC half with the writer's session key but not the AES half (a
+     partial HKDF collision) *)
   Theorem ctrhmac_seg_forgery_is_hmac_forgery : forall (sk' : bytes * bytes) (N c s : bytes),
     length N = 16 ->
     SDEC k sk' N c = Some s -> ~ WRITTEN sk' N c ->
-    hmac_forgery (snd sk') (N ++ firstn (length c - tag) c) (skipn (length c - tag) c) \/
+    (hmac_forgery (snd sk') (N ++ firstn (length c - tag) c) (skipn (length c - tag) c) /\
+     length (skipn (length c - tag) c) = tag /\ 10 <= tag) \/
     (snd sk' = snd sk /\ fst sk' <> fst sk).
   Proof.
     intros sk' N c s HN Hd Hnw. cbn [seg_dec] in Hd.
-    destruct (length c <? tag); [discriminate|].
+    destruct (Nat.ltb_spec (length c) tag) as [Hlt|Hge]; [discriminate|].
     set (body := firstn (length c - tag) c) in *. set (t := skipn (length c - tag) c) in *.
     destruct (beq t _) eqn:Eb; [|discriminate]. apply beq_eq in Eb.
-    destruct (maced_dec (snd sk') (N ++ body)) as [Hm|Hm]; [|left; split; assumption].
+    destruct (maced_dec (snd sk') (N ++ body)) as [Hm|Hm].
+    2:{ left. split; [split; assumption|]. split; [unfold t; rewrite skipn_length; lia|exact (proj1 ctr_tag_bounds)]. }
     right. destruct Hm as (Ehk & i & Hi & Hx). split; [exact Ehk|].
     intros Eek. apply Hnw.
     assert (HNi : length (NI i) = 16).
@@ -515,11 +584,36 @@ Section CtrHmacForgery.
     rewrite Eb, Ehk, Ebody, EN. reflexivity.
   Qed.
 
+  (* and conversely: an HMAC forgery on a presented pair IS a forged segment, so
+     "no forged segment" refutes the HMAC-forgery disjunct *)
+  Lemma hmac_forgery_is_seg_forgery :
+    (forall h k m, length (hmac h k m) = digest_size h) ->
+    forall (sk' : bytes * bytes) (N c : bytes),
+      hmac_forgery (snd sk') (N ++ firstn (length c - tag) c) (skipn (length c - tag) c) ->
+      (exists s, SDEC k sk' N c = Some s) /\ ~ WRITTEN sk' N c.
+  Proof.
+    intros hmac_len sk' N c (Ht & Hnm). destruct ctr_tag_bounds as (T1 & T2).
+    assert (Htl : length (skipn (length c - tag) c) = tag).
+    { rewrite Ht at 1. rewrite firstn_length, hmac_len. lia. }
+    assert (Hge : tag <= length c).
+    { destruct (Nat.le_gt_cases tag (length c)) as [H|H]; [exact H|].
+      replace (length c - tag) with 0 in Htl by lia. cbn [skipn] in Htl. lia. }
+    split.
+    - cbn [seg_dec]. destruct (Nat.ltb_spec (length c) tag); [lia|].
+      rewrite <- Ht, beq_refl. eexists; reflexivity.
+    - intros (Esk & i & Hi & EN & Ec). apply Hnm. split; [rewrite Esk; reflexivity|].
+      exists i. split; [exact Hi|]. rewrite EN at 1. f_equal.
+      rewrite Ec at 1 2. cbn [seg_enc]. rewrite app_length, firstn_length, hmac_len.
+      replace (length (aes_ctr (fst sk) N (nth i ss [])) + Nat.min tag (digest_size th) - tag)
+        with (length (aes_ctr (fst sk) N (nth i ss []))) by lia.
+      rewrite firstn_app, Nat.sub_diag, firstn_all, firstn_O, app_nil_r. rewrite EN. reflexivity.
+  Qed.
+
   (* composed with the key-level reduction: for an AES-CTR-HMAC key the
      reduction bottoms out in "HMAC produced this tag on an input the writer
      never authenticated" *)
   Theorem ctrhmac_key_manipulation_reduction :
-    key_valid k = true -> length salt = k_dk k ->
+    length salt = k_dk k ->
     (N.of_nat (length ss) <= max_segments)%N ->
     own_segments_decrypt hkdf gcm_seal gcm_open aes_ctr hmac k salt prefix aad p ->
     forall (c' : bytes) (F : option nat) (aad' : bytes) (sizes : list nat),
@@ -527,12 +621,13 @@ Section CtrHmacForgery.
       kgood hkdf gcm_seal aes_ctr hmac k salt prefix aad p c' aad' sizes
             (key_read hkdf gcm_open aes_ctr hmac src read_full k aad' (mkSrc c' F) sizes) \/
       (exists N c, In (N, c) (key_presented hkdf gcm_open aes_ctr hmac k aad' (mkSrc c' F) sizes) /\
-                   hmac_forgery (snd sk') (N ++ firstn (length c - tag) c) (skipn (length c - tag) c)) \/
+                   hmac_forgery (snd sk') (N ++ firstn (length c - tag) c) (skipn (length c - tag) c) /\
+                   length (skipn (length c - tag) c) = tag /\ 10 <= tag) \/
       hkdf_collision hkdf k salt aad c' aad' \/
       (snd sk' = snd sk /\ fst sk' <> fst sk).
   Proof.
-    intros Hv Hsalt Hb Hcorr c' F aad' sizes sk'.
-    destruct (key_manipulation_reduction hkdf gcm_seal gcm_open aes_ctr hmac k salt prefix aad p Hv Hsalt Hpre Hb
+    intros Hsalt Hb Hcorr c' F aad' sizes sk'.
+    destruct (key_manipulation_reduction hkdf gcm_seal gcm_open aes_ctr hmac k salt prefix aad p Hvk Hsalt Hpre Hb
                 Hcorr c' F aad' sizes) as [G|[(N & c & s & Hin & Hd & Hnw)|Hc]];
       [left; exact G| |right; right; left; exact Hc].
     pose proof (key_presented_nonce_len hkdf gcm_open aes_ctr hmac k aad' _ sizes N c Hin) as HN.
